@@ -188,6 +188,7 @@ def fork_cases():
         check_fields(ctx, pre, ex0, "new transaction / test", skip=("known_keys", "known_sigs"))
         ctx.oblige("new transaction: starts with an empty stack, memory and loop record at pc 0 in a fresh call context", z3.BoolVal(ex0.st.stack == [] and len(ex0.st.memory) == 0 and ex0.jumpis == {} and ex0.pc == 0 and ex0.context.trace == [] and ex0.context.message is msg and ex0.path is newpath))
         ctx.oblige("new transaction: keys and signatures of earlier transactions are not inherited by reference", z3.BoolVal(ex0.known_keys is not pre.known_keys and ex0.known_sigs is not pre.known_sigs))
+        ctx.oblige("new transaction: it starts from exactly the post-setUp state, the keys and signatures known there included (their distinctness facts are on the path)", z3.BoolVal(len(pre.known_keys) > 0 and dict(ex0.known_keys) == dict(pre.known_keys) and dict(ex0.known_sigs) == dict(pre.known_sigs)), info={"pre": len(pre.known_keys), "new": len(ex0.known_keys)})
         # the test works on its state ...
         sevm.sstore(ex0, THIS, hb.HalmosBitVec(1), hb.HalmosBitVec(1234))
         ex0.cnts["fresh"] += 5
@@ -198,7 +199,7 @@ def fork_cases():
         now = (hs_fingerprint(pre), len(pre.known_keys), dict(pre.cnts), len(pre.alias), len(pre.st.stack), len(pre.context.trace))
         ctx.oblige("frame: running a test/transaction does not modify the state it starts from (the next test starts from exactly the post-setUp state)", z3.BoolVal(now == snapshot))
 
-    out.append(Case(f"{PROP}/sevm.SEVM.run_message", "test state derived from the setUp state", harness_tx, replay=replay_script("block_shared_between_tests.py", "two tests from one setUp state; the first calls vm.warp, the second asserts under block.timestamp <= deadline"), sources=("halmos.sevm:SEVM.run_message",)))
+    out.append(Case(f"{PROP}/sevm.SEVM.run_message", "test state derived from the setUp state", harness_tx, replay=lambda r: (lambda a: a if a.get("reproduced") else replay_script("block_shared_between_tests.py", "two tests from one setUp state; the first calls vm.warp, the second asserts under block.timestamp <= deadline")(r))(replay_script("known_keys_across_tests.py", "alice = vm.addr(1) in setUp(); a test asserts vm.addr(2) != alice")(r)), sources=("halmos.sevm:SEVM.run_message",)))
     return out
 
 
